@@ -36,7 +36,7 @@ func runC01(r *engine.Run) {
 	whoLiveDelete(r, "WHO-livedelete")
 	domLift(r, "DOM-lift")
 	agreeFields(r)
-	errGuard(r, "ERR-guard", "ERR-dropped", mptFuncs(r), 30)
+	errGuard(r, "ERR-guard", "ERR-dropped", mptFuncs(r), 15)
 }
 
 var nodeKinds = []string{"ExtensionNode", "FullNode", "LeafNode"}
@@ -264,6 +264,30 @@ func domSize(r *engine.Run) {
 				}
 			}
 		}
+		if !sizeOK && ok {
+			// the guard may live in a helper: g(..., eval, ...) whose error tested nil
+			// here, where g returns a nil error only with len(param) > Max false
+			for _, ft := range facts {
+				if ft.Kind != "eq" || !ft.Truth {
+					continue
+				}
+				for _, side := range [][2]ssa.Value{{ft.A, ft.B}, {ft.B, ft.A}} {
+					hc, isCall := side[0].(*ssa.Call)
+					if !isCall || !nilConst(side[1]) {
+						continue
+					}
+					g := hc.Call.StaticCallee()
+					if g == nil || len(g.Blocks) == 0 {
+						continue
+					}
+					for ai, a := range hc.Call.Args {
+						if a == eval && ai < len(g.Params) && sizeGuardIn(g, g.Params[ai], maxObj) {
+							sizeOK = true
+						}
+					}
+				}
+			}
+		}
 		r.Check(sizeOK, rule, o.next(fn(f)+"|"+what+"|size"), r.P.Pos(c.Pos()), "reached only with len(value) > MPTMaxAllowableNodeSize false",
 			"the trie is locked or modified on a path that has not rejected an over-size value (guard removed, moved after the mutation, or comparing another quantity)")
 		r.Check(emptyOK, rule, o.next(fn(f)+"|"+what+"|empty"), r.P.Pos(c.Pos()), "reached only with a non-empty encoding",
@@ -382,13 +406,18 @@ func depAbsent(r *engine.Run) {
 	}
 	// 2. leaf arm of deleteAtNode
 	if f := r.Fn(rule, pkgUtil, "MerklePatriciaTrie", "deleteAtNode"); f != nil {
-		var nodeParam, pathParam ssa.Value
+		nodeParam := paramRole(f, "node")
+		var pathParam ssa.Value
 		for _, p := range f.Params {
-			switch p.Name() {
-			case "node":
-				nodeParam = p
-			case "path":
+			if p.Name() == "path" {
 				pathParam = p
+			}
+		}
+		if pathParam == nil { // renamed: the last Path-typed parameter
+			for _, p := range f.Params {
+				if nm, ok := p.Type().(*types.Named); ok && nm.Obj().Name() == "Path" {
+					pathParam = p
+				}
 			}
 		}
 		arm := typeArms(f, nodeParam)["LeafNode"]
@@ -632,4 +661,37 @@ func domExtNonEmpty(r *engine.Run, rule string) {
 	if n < 6 {
 		r.Anchor(rule, fmt.Errorf("unresolved anchor: only %d extension constructions found", n))
 	}
+}
+
+// sizeGuardIn: every return of g with a nil error is reached only where
+// len(p) > max tested false.
+func sizeGuardIn(g *ssa.Function, p ssa.Value, maxObj *types.Const) bool {
+	lenKey := "len(" + engine.ValKey(p) + ")"
+	any := false
+	for _, ret := range engine.Returns(g) {
+		if len(ret.Results) == 0 {
+			return false
+		}
+		ev := resultValue(ret, len(ret.Results)-1)
+		if !nilConst(ev) {
+			continue
+		}
+		any = true
+		facts, ok := engine.FactsOn(g, ret.Block())
+		if !ok {
+			return false
+		}
+		good := false
+		for _, ft := range facts {
+			if ft.Kind == "lt" && !ft.Truth && engine.ValKey(ft.B) == lenKey {
+				if cv := constVal(ft.A); cv != nil && constant.Compare(cv, token.EQL, maxObj.Val()) {
+					good = true
+				}
+			}
+		}
+		if !good {
+			return false
+		}
+	}
+	return any
 }
